@@ -18,13 +18,14 @@ type G struct {
 	R      *rand.Rand
 	Schema models.IndexSchema
 	// knobs
-	PresentProb  float64 // probability that an indexed field is present in a generated document
-	ExtraProb    float64 // probability of extra non-indexed fields
-	AllowEmptyStr bool   // generate "" for string / stringArray indexed fields
-	IntWidths    bool    // extras use compact integer widths like a msgpack client
-	Vocabulary   []string
-	idCounter    uint64
-	seedTag      uint64
+	PresentProb   float64 // probability that an indexed field is present in a generated document
+	ExtraProb     float64 // probability of extra non-indexed fields
+	AllowEmptyStr bool    // generate "" for string / stringArray indexed fields
+	IntWidths     bool    // extras use compact integer widths like a msgpack client
+	NoLattice     bool    // never draw vectors from the small integer lattice (which produces exact distance ties)
+	Vocabulary    []string
+	idCounter     uint64
+	seedTag       uint64
 }
 
 func New(seed uint64, schema models.IndexSchema) *G {
@@ -83,7 +84,11 @@ func (g *G) Vector(dim int, metric string) []float32 {
 			v[i] = float32(float64(v[i]) / math.Sqrt(n))
 		}
 	default:
-		switch g.R.IntN(8) {
+		lattice := g.R.IntN(8)
+		if g.NoLattice {
+			lattice = 1
+		}
+		switch lattice {
 		case 0: // small integer lattice: produces exact ties
 			for i := range v {
 				v[i] = float32(g.R.IntN(3) - 1)
